@@ -12,7 +12,7 @@ IDX = "<Vec<%s> as ops::Index>::index"
 
 def walk_ctx(t, fn, anc=()):
     """call fn(node, ancestors) for every tuple node; ancestors = ((parent, index_in_parent), ...)"""
-    if isinstance(t, tuple):
+    if isinstance(t, tuple) and t:
         fn(t, anc)
         for i, x in enumerate(t):
             walk_ctx(x, fn, anc + ((t, i),))
@@ -353,6 +353,18 @@ def justifications(F, models):
                         J[p_][("call", "Vec::remove")] += 10 ** 6
                 J[pn_fn.path][("call", "Vec::remove")] += nrm
                 rec.append({"schema": "ARITY-REMOVE", "fn": pn_fn.key, "sites": nrm, "argument": "args.remove(k) on the vector of function_static_arguments(n)?: k < remaining length at every call (constant propagation)"})
+            if okshape and cnt:
+                # the same sites may live in helper methods inlined into the function table (`single_argument()`):
+                # all index sites on a fixed-arity list in the (inlined) arms are in range
+                total_idx = 0
+                for fnv, (evs_, tail) in arms.items():
+                    if tail[0] == "val":
+                        total_idx += sum(1 for s in subterms(tail[1]) if isinstance(s, tuple) and len(s) == 4 and s[0] == "call" and isinstance(s[1], str) and s[1].endswith("ops::Index>::index"))
+                if total_idx == cnt:
+                    for p_ in getattr(m.tb, "_inlined_paths", set()):
+                        g_ = F.by_path.get(p_)
+                        if g_ is not None and "::parser::Parser::" in g_.key:
+                            J[p_][("call", "Index")] += 10 ** 6
             if okshape and cnt:
                 J[pn_fn.path][("call", "Index")] += cnt
                 rec.append({"schema": "ARITY", "fn": pn_fn.key, "sites": cnt, "argument": "function_static_arguments(n)? has exactly n elements (one unconditional push per iteration of `for i in 0..n`), indexed with literal k < n"})
